@@ -38,6 +38,7 @@ type scheduler struct {
 	cur         int
 	preemptions int
 	maxPreempt  int
+	policy      int // 0: every choice is explored; 1..3: one fixed schedule (lowest id first / highest id first / round robin), for long lists
 	abort       interface{}
 	killed      bool
 	cells       map[*value]*accessRec
@@ -103,6 +104,28 @@ func (s *scheduler) runnable() []int {
 	return out
 }
 
+// pick: the goroutine a fixed-schedule policy runs next among the runnable ones (me may or may not be one).
+func (s *scheduler) pick(rs []int, me int) int {
+	switch s.policy {
+	case 1: // run to completion, lowest id first
+		for _, r := range rs {
+			if r == me {
+				return me
+			}
+		}
+		return rs[0]
+	case 2: // always the youngest runnable goroutine
+		return rs[len(rs)-1]
+	default: // round robin: the next id after me
+		for _, r := range rs {
+			if r > me {
+				return r
+			}
+		}
+		return rs[0]
+	}
+}
+
 // switchTo hands the baton to goroutine id and parks the caller until it is resumed.
 func (s *scheduler) switchTo(id int) {
 	me := s.me()
@@ -133,6 +156,12 @@ func (s *scheduler) yield(what string) {
 		return
 	}
 	me := s.me()
+	if s.policy != 0 {
+		if t := s.pick(rs, me.id); t != me.id {
+			s.switchTo(t)
+		}
+		return
+	}
 	opts := []int{me.id}
 	if s.preemptions < s.maxPreempt {
 		for _, r := range rs {
@@ -163,7 +192,14 @@ func (s *scheduler) waitUntil(x *Exec, cond func() bool, what string) {
 			panic(targetPanic{v: iface{t: x.rtErrType, v: strVal{s: "all goroutines are asleep - deadlock! (" + what + ")"}}, msg: "fatal error: all goroutines are asleep - deadlock! (" + what + ")"})
 		}
 		k := 0
-		if len(rs) > 1 {
+		if s.policy != 0 {
+			t := s.pick(rs, me.id)
+			for i, r := range rs {
+				if r == t {
+					k = i
+				}
+			}
+		} else if len(rs) > 1 {
 			k = x.choose(len(rs), "schedule:blocked:"+what)
 		}
 		s.switchTo(rs[k])
@@ -224,7 +260,14 @@ func (s *scheduler) spawn(x *Exec, fr *frame, instr *ssa.Go, fn value, args []va
 					next = 0
 				} else {
 					k := 0
-					if len(rs) > 1 {
+					if s.policy != 0 {
+						t := s.pick(rs, child.id)
+						for i, r := range rs {
+							if r == t {
+								k = i
+							}
+						}
+					} else if len(rs) > 1 {
 						k = s.chooseSafe(len(rs), "schedule:exit")
 					}
 					if k < 0 {
